@@ -101,6 +101,25 @@ CHECKS["C18"] = dict(
     ref="5 (C18), 8.3",
 )
 
+CHECKS["C04"] = dict(
+    category="exploration",
+    technique="shape-space enumeration per box type with boundary-biased values; encode/decode round-trip, size, header and stream-position monitors; re-encode fixpoint",
+    text=("Enumerates the complete shape space of 48 box types and fills each shape with boundary-biased values, then checks the inverse and "
+          "size-exactness claims directly on the real encoder/decoder, with random trailing siblings so that a decoder that reads too little or too much "
+          "is observed through the stream position."),
+    note="Representable-value domain stated in the evidence assumptions; hooks re-export the crate-private box types.",
+    ref="5 (C04), 8.3",
+)
+CHECKS["C05"] = dict(
+    category="exploration",
+    technique="differential against an independent reference encoder/decoder derived from one abstract field list; equivalent-encoding variants; accessor checks on reference files",
+    text=("Library bytes are compared with independently produced reference bytes and reference bytes (plus 64-bit header, padded descriptor lengths, "
+          "reserved-bit and compressor-name variants) are decoded and compared field by field, so symmetric encode/decode mistakes invisible to C04 are "
+          "caught. Known finding K3 (frequency index 15) attributed only on its trigger."),
+    note="Trusted base: refenc.rs (DESIGN Appendix A). Reserved bits are not fields.",
+    ref="5 (C05), 7 (K3), Appendix A",
+)
+
 PENDING_REASON = "monitor not yet registered in this commit (implementation in progress, see DESIGN.md section 11); not claimed until its check is silent on the unchanged tree"
 
 def mk():
